@@ -228,6 +228,15 @@ def run(chk: Check) -> None:
     )
     reqs, impl, meta = [], [], []
     jobs = []
+    # corpus (runs first): the class reply of day 1 is lost while the sensor-mask reply arrives - zones are created
+    # un-typed and promoted a day later
+    base = {"zones": {"00": {"class": "08", "sensor": "34:000901", "actuators": ["04:000902", "04:000903"]},
+                      "02": {"class": "0A", "sensor": "04:000904", "actuators": ["13:000905"]},
+                      "07": {"class": "11", "sensor": CTL, "actuators": ["13:000906"]}},
+            "dhw": {"sensor": "07:000907", "hotwater_valve": "13:000908", "heating_valve": None}, "app": "13:000909"}
+    jobs.append((base, [{"0005/0008"}], 2))
+    jobs.append((base, [{"0005/0008", "0005/000A", "0005/0011"}, {"000C/0008", "000C/0204"}], 3))
+    jobs.append((base, [{"0005/0004", "000C/000D"}], 2))
     for ep in range(n_ep):
         cfg = gen_cfg(rnd)
         n_lossy = rnd.choice((0, 0, 1, 1, 2, 3))
